@@ -74,8 +74,7 @@ def run(ctx):
     if rs is None:
         ctx.bad("C05/D1", "rule serialiser", "not found")
     else:
-        b = body_of(fx, rs["key"])
-        ctx.touch_body(b)
+        b = ctx.region(None, policy="private", key=rs["key"], ps=True)
         adt = fx.adts["models::layout::rule::ArtifactRule"]
         elems = b.calls_named("serde::ser::SerializeSeq::serialize_element")
         emitted_paths = {}
